@@ -919,3 +919,45 @@ def run_r7(prog, res, cg):
                                     "collection at that call follows a pointer that is not a heap object"
                                     % (fn.name, fn.txt(inner)[:60], name, path[1], path[2]), unit=fn.unit.display))
     return stat
+
+
+# ------------------------------------------------------------------ R8
+def run_r8(prog, res):
+    """sexp_preserve_object / sexp_release_object count registrations (doc/chibi.scrbl: an object preserved
+    n times must be released n times): one call of sexp_release_object unlinks at most one cell of the
+    preservation list - after an unlinking store no path of the same call reaches an unlinking store again."""
+    from cfg import block_reach, elem_positions, enclosing_elem
+    stat = res.stat("C02.R8", "sexp_release_object removes at most one registration per call (counting semantics of the "
+                    "preservation list)", floor=1)
+    fn = prog.func("sexp_release_object")
+    if fn is None:
+        raise AnalysisBroken("anchor vanished: sexp_release_object")
+    pos = elem_positions(fn)
+    unlinks = []
+    for i, nd in enumerate(fn.nodes):
+        if nd["k"] == "bin" and nd["o"] == "=":
+            l, r = fn.strip(nd["c"][0]), fn.strip(nd["c"][1])
+            # list surgery: <cdr of a cell | the list head> = cdr(<cell>)
+            if fn.nodes[r]["k"] == "mem" and fn.nodes[r].get("o") == "cdr" and fn.nodes[l]["k"] in ("mem", "idx"):
+                p = enclosing_elem(fn, i, pos)
+                if p is not None:
+                    unlinks.append((i, p))
+    if not unlinks:
+        raise AnalysisBroken("anchor vanished: sexp_release_object no longer unlinks a cell")
+    stat.sites += 1
+    stat.obligations += 1
+    bad = None
+    for (i, p) in unlinks:
+        reach = block_reach(fn, p[0])
+        for (j, q) in unlinks:
+            if q[0] in reach or (q[0] == p[0] and q[1] > p[1]):
+                bad = (i, j)
+    if bad is None:
+        stat.discharged += 1
+        stat.sample({"function": fn.name, "unlink stores": [fn.where(i) for (i, _p) in unlinks]})
+    else:
+        res.add(Finding("C02", "R8.release-removes-many", fn.name, "preservation list", fn.where(bad[0]),
+                        "after unlinking a cell at %s sexp_release_object can go on to unlink another at %s in the same call: "
+                        "an object preserved twice and released once loses both registrations and is reclaimed while its "
+                        "second owner still uses it" % (fn.where(bad[0]), fn.where(bad[1])), unit=fn.unit.display))
+    return stat
